@@ -16,7 +16,7 @@ func init() {
 		ID: "C18",
 		Explanation: "EFFECTS analysis over the SSA of the four core packages: R1 outside package initialisers no instruction writes through an address derived from a package-level variable, takes such an address into a call, or hands a reference value (slice/map/pointer) loaded from one to anything but element reads, len, range and listed pure standard-library functions (followed interprocedurally into module functions); " +
 			"R2 no ambient input: the import set of the core packages is within the pure whitelist, there is no go statement, channel operation, select, or range over a map outside init; " +
-			"R3 no aliasing out of a parse: no ast node type can reach *Lexer/*Parser/*token.File through its fields, tokens stored in the AST are Clone() results, File.lines is written only by File.init on its own receiver. " +
+			"R3 no aliasing out of a parse: no ast node type can reach *Lexer/*Parser/*token.File through its fields, File.lines is written only by File.init on its own receiver; R8 the address of a field of the parser or lexer (&p.Token) never becomes data (tokens kept in the tree are Token.Clone() results, C10/R3). " +
 			"Together: every write of a call goes to memory allocated in that call or owned by its Parser, every read of shared memory reads data immutable after initialisation. Assumes the standard-library functions used are pure.",
 		Rules: []ruleFn{ruleC18R1, ruleC18R2, ruleC18R3, ruleC18R4, ruleC18R5, ruleC13R5, ruleC18R6, ruleC18R7, ruleC18R8},
 	})
